@@ -324,17 +324,14 @@ theorem pred_is_exc {fn : String} {x : V} {c : String} (h : predApply fn x = .ra
   · exact (hw.plain_ok "KeyError" (by simp)).2
 
 /-- the tail of `runValidators` after validator `f`, adding `k` error messages -/
-def bump (env : Env) (d : Option Arg) (f : Fn) (fs : List Fn) (x : V) (k : Nat) : ValidRes × Log :=
-  addErrs k (fnLog f) (runValidators env d fs x)
+def bump (env : Env) (hd : Bool) (f : Fn) (fs : List Fn) (x : V) (k : Nat) : ValidRes × Log :=
+  addErrs k (fnLog f) (runValidators env hd fs x)
 
-theorem runValidators_cons (d : Option Arg) (f : Fn) (fs : List Fn) (x : V) :
-    runValidators env d (f :: fs) x =
+theorem runValidators_cons (hd : Bool) (f : Fn) (fs : List Fn) (x : V) :
+    runValidators env hd (f :: fs) x =
       match validatorCond f x with
-      | .failsRaw => (match d with
-          | some a => (.ret (rawDefault a), fnLog f)
-          | none => bump env d f fs x 1)
-      | .holds => bump env d f fs x 0
-      | _ => bump env d f fs x 1 := by
+      | .holds => bump env hd f fs x 0
+      | .fails => if hd then (.useDefault, fnLog f) else bump env hd f fs x 1 := by
   unfold validatorCond bump
   conv => lhs; unfold runValidators
   cases hp : predApply f.2 x with
@@ -345,70 +342,54 @@ theorem runValidators_cons (d : Option Arg) (f : Fn) (fs : List Fn) (x : V) :
   | raise c =>
     simp only [catch_exc hw "Check.glomit" (by simp [catchSites]), pred_is_exc hw hp, if_true]
 
-omit hw in
-theorem validatorCond_ne_fails (f : Fn) (x : V) : validatorCond f x ≠ .fails := by
-  unfold validatorCond; split <;> simp
-
 /-- without a default the loop never returns early: it counts the unmet validators -/
 theorem runValidators_none (fs : List Fn) (x : V) :
-    runValidators env none fs x =
+    runValidators env false fs x =
       (.errs (fs.filter (fun f => validatorCond f x != .holds)).length, fs.flatMap fnLog) := by
   induction fs with
   | nil => rfl
   | cons f fs ih =>
     rw [runValidators_cons hw]
-    have hne := validatorCond_ne_fails f x
-    cases hc : validatorCond f x <;> simp [bump, addErrs, ih, hc] at hne ⊢
+    cases hc : validatorCond f x <;> simp [bump, addErrs, ih, hc]
 
 omit hw in
-theorem cwd_holds (a : Arg) (x t0 : V) (l : Log) (rest : List (Cond × Log)) (bad : Bool) :
-    checkWithDefault a x t0 ((.holds, l) :: rest) bad =
-      ((checkWithDefault a x t0 rest bad).1, l ++ (checkWithDefault a x t0 rest bad).2) := by
+theorem cwd_holds (a : Arg) (x t0 : V) (l : Log) (rest : List (Cond × Log)) :
+    checkWithDefault a x t0 ((.holds, l) :: rest) =
+      ((checkWithDefault a x t0 rest).1, l ++ (checkWithDefault a x t0 rest).2) := by
   rw [checkWithDefault]
 
-/-- with a default: the loop either returns the raw default at the first validator that
-    returned False, or finishes having remembered whether one raised -/
-theorem runValidators_some (a : Arg) (x t0 : V) (rest : List (Cond × Log)) (fs : List Fn) (bad : Bool) :
-    match runValidators env (some a) fs x with
-    | (.ret v, l) =>
-      checkWithDefault a x t0 (fs.map (fun f => (validatorCond f x, fnLog f)) ++ rest) bad = (.pass v, l)
+/-- with a default: the loop either ends at the first validator that returned False or raised
+    (the default is evaluated), or finishes with nothing to report -/
+theorem runValidators_some (a : Arg) (x t0 : V) (rest : List (Cond × Log)) (fs : List Fn) :
+    match runValidators env true fs x with
+    | (.useDefault, l) =>
+      checkWithDefault a x t0 (fs.map (fun f => (validatorCond f x, fnLog f)) ++ rest) = (ofArg a x, l)
     | (.raise _, _) => False
     | (.errs n, l) =>
-      checkWithDefault a x t0 (fs.map (fun f => (validatorCond f x, fnLog f)) ++ rest) bad =
-        ((checkWithDefault a x t0 rest (bad || decide (n > 0))).1,
-         l ++ (checkWithDefault a x t0 rest (bad || decide (n > 0))).2) := by
-  induction fs generalizing bad with
+      n = 0 ∧
+      checkWithDefault a x t0 (fs.map (fun f => (validatorCond f x, fnLog f)) ++ rest) =
+        ((checkWithDefault a x t0 rest).1, l ++ (checkWithDefault a x t0 rest).2) := by
+  induction fs with
   | nil => simp [runValidators]
   | cons f fs ih =>
     rw [runValidators_cons hw]
-    have hne := validatorCond_ne_fails f x
     simp only [List.map_cons, List.cons_append]
     cases hc : validatorCond f x with
-    | fails => exact absurd hc hne
-    | failsRaw => simp [checkWithDefault]
+    | fails => simp [checkWithDefault]
     | holds =>
-      have := ih bad
       simp only [bump, addErrs]
       rw [checkWithDefault]
-      cases hr : runValidators env (some a) fs x with
+      cases hr : runValidators env true fs x with
       | mk vr l =>
-        rw [hr] at this
+        rw [hr] at ih
         cases vr with
-        | ret v => simp only at this ⊢; rw [this]
-        | raise e => simp only at this
-        | errs n => simp only at this ⊢; rw [this]; simp [List.append_assoc]
-    | raised =>
-      have := ih true
-      simp only [bump, addErrs]
-      rw [checkWithDefault]
-      cases hr : runValidators env (some a) fs x with
-      | mk vr l =>
-        rw [hr] at this
-        cases vr with
-        | ret v => simp only at this ⊢; rw [this]
-        | raise e => simp only at this
-        | errs n => simp only at this ⊢; rw [this]; simp [List.append_assoc]
-
+        | useDefault => simp only at ih ⊢; rw [ih]
+        | raise e => simp only at ih
+        | errs n =>
+          simp only at ih ⊢
+          obtain ⟨hn, ih⟩ := ih
+          subst hn
+          rw [ih]; simp [List.append_assoc]
 
 omit hw in
 theorem all_holds_eq (fs : List Fn) (x : V) :
@@ -421,21 +402,20 @@ theorem all_holds_eq (fs : List Fn) (x : V) :
     cases validatorCond f x <;> simp
 
 omit hw in
-theorem cwd_opt (a : Arg) (x t0 : V) (absent ok : Bool) (rest : List (Cond × Log)) (bad : Bool) :
+theorem cwd_opt (a : Arg) (x t0 : V) (absent ok : Bool) (rest : List (Cond × Log)) :
     checkWithDefault a x t0
-      ((if absent then [] else [((if ok then Cond.holds else Cond.fails), ([] : Log))]) ++ rest) bad =
-    if !absent && !ok then (ofArg a x, []) else checkWithDefault a x t0 rest bad := by
+      ((if absent then [] else [((if ok then Cond.holds else Cond.fails), ([] : Log))]) ++ rest) =
+    if !absent && !ok then (ofArg a x, []) else checkWithDefault a x t0 rest := by
   cases absent <;> cases ok <;> simp [checkWithDefault]
 
 omit hw in
-theorem cwd_nil (a : Arg) (x t0 : V) (bad : Bool) :
-    checkWithDefault a x t0 [] bad = if bad then vreject .check else vpass t0 := by
+theorem cwd_nil (a : Arg) (x t0 : V) : checkWithDefault a x t0 [] = vpass t0 := by
   rw [checkWithDefault]
 
 theorem checkOn_rel (o : CheckObj) (x t0 : V) :
     Rel env (checkOn env o x t0)
       (match o.default with
-       | some d => checkWithDefault d x t0 (checkConds env.cls o x) false
+       | some d => checkWithDefault d x t0 (checkConds env.cls o x)
        | none => checkNoDefault t0 (checkConds env.cls o x)) := by
   unfold checkOn checkConds
   cases hd : o.default with
@@ -483,18 +463,20 @@ theorem checkOn_rel (o : CheckObj) (x t0 : V) :
         have hv := runValidators_some hw a x t0
           (if o.instanceOf.isEmpty then []
             else [(if o.instanceOf.any fun c => isInst env.cls x c then Cond.holds else Cond.fails, [])])
-          o.validators false
-        cases hr : runValidators env (some a) o.validators x with
+          o.validators
+        cases hr : runValidators env true o.validators x with
         | mk vr l =>
           rw [hr] at hv
           cases vr with
-          | ret v => simp only at hv ⊢; rw [hv]; exact Rel.mk_ok v l
+          | useDefault => simp only at hv ⊢; rw [hv]; exact argVal_rel hw a x l
           | raise e => exact absurd hv (by simp)
           | errs n =>
             simp only at hv ⊢
+            obtain ⟨hn, hv⟩ := hv
+            subst hn
             rw [hv]
             have := cwd_opt a x t0 o.instanceOf.isEmpty
-              (o.instanceOf.any fun c => isInst env.cls x c) [] (false || decide (n > 0))
+              (o.instanceOf.any fun c => isInst env.cls x c) []
             rw [List.append_nil] at this
             rw [this]
             by_cases h3 : (!o.instanceOf.isEmpty && !o.instanceOf.any fun c => isInst env.cls x c) = true
@@ -504,12 +486,40 @@ theorem checkOn_rel (o : CheckObj) (x t0 : V) :
               rw [cwd_nil]
               simp only [Bool.not_eq_true] at h1 h2 h3
               simp only [h1, h2, h3, Bool.false_eq_true, if_false, Nat.zero_add, Nat.add_zero,
-                Bool.false_or]
-              by_cases hn : n > 0
-              · simp only [hn, decide_true, if_true, vreject, List.append_nil]
-                exact raise_rel hw "Check.glomit" 1 .check l (by simp [siteOrigins])
-              · simp only [hn, decide_false, Bool.false_eq_true, if_false, vpass, List.append_nil]
-                exact Rel.mk_ok t0 l
+                Nat.lt_irrefl, gt_iff_lt, vpass, List.append_nil]
+              exact Rel.mk_ok t0 l
+
+/-- with a default, the validator loop ends in "use the default" exactly when some validator
+    returns False or raises -/
+theorem runValidators_true (fs : List Fn) (x : V) :
+    (runValidators env true fs x).1 =
+      if fs.all (fun f => validatorCond f x == .holds) then .errs 0 else .useDefault := by
+  induction fs with
+  | nil => rfl
+  | cons f fs ih =>
+    rw [runValidators_cons hw]
+    cases hc : validatorCond f x with
+    | fails => simp
+    | holds =>
+      simp only [bump, addErrs, ih, List.all_cons, hc, beq_self_eq_true, Bool.true_and]
+      split <;> simp
+
+/-- **Check with a default, as an equation**: the target when every condition holds on the
+    subject, `arg_val(default)` against the subject otherwise -/
+theorem checkOn_default_eq (o : CheckObj) (x t0 : V) (a : Arg) (hd : o.default = some a) :
+    (checkOn env o x t0).1 = if allHold env.cls o x then .ok t0 else argVal a x := by
+  unfold checkOn allHold
+  simp only [hd, Option.isSome_some, Bool.and_true, Option.getD_some]
+  have hv := runValidators_true hw o.validators x
+  generalize o.types.isEmpty = e1
+  generalize o.types.contains x.cls = k1
+  generalize o.vals.isEmpty = e2
+  generalize pyIn x o.vals = k2
+  generalize o.instanceOf.isEmpty = e3
+  generalize (o.instanceOf.any fun c => isInst env.cls x c) = k3
+  cases hall : (o.validators.all fun f => validatorCond f x == Cond.holds) <;>
+    rw [hall] at hv <;> simp only [Bool.false_eq_true, if_false, if_true] at hv <;>
+    cases e1 <;> cases k1 <;> cases e2 <;> cases k2 <;> cases e3 <;> cases k3 <;> simp [hv]
 
 theorem checkGlomit_rel (a : CheckArgs) (o : CheckObj) (ho : checkInit a = .ok o) (t0 : V) :
     Rel env (checkGlomit env o t0) (checkRef env.cls a t0) := by
